@@ -83,5 +83,5 @@ func verifSnap(c *Connection, s *inFlightState) {
 		snap.Done = true
 	default:
 	}
-	VerifSnap(c, verifCaller(5), snap)
+	VerifSnap(c, verifCaller(4), snap)
 }
